@@ -129,6 +129,17 @@ def main():
             time.sleep(plan['hold'])
         if plan['kind'] == 'exit':
             os._exit(3)
+        if plan.get('exc') == 'unpicklable':
+            # an exception object that cannot cross the process boundary (as raised by a user's
+            # field converter / timestamp matcher holding a match object, a lock, a lambda)
+            import re as _re
+
+            class LocalError(ValueError):         # a class pickle cannot find
+                pass
+            err = LocalError(f"injected at {point}")
+            err.match = _re.match('x', 'x')
+            err.callback = lambda: None
+            raise err
         if plan.get('exc') == 'OSError':
             # e.g. EIO from the disk / a damaged gzip member while the file is being read
             raise OSError(5, f"Input/output error (injected at {point})")
